@@ -47,10 +47,29 @@ def _regex_of_captures(F, p, op, statics, depth=0):
                 if rr[0] == 'param':
                     return ('param', rr[1], rr[2])
             return ('unknown',)
-        if r[0] == 'param' and F.bodies[p]['kind'] == 'Closure':
-            # closure over captures_iter(...).map(|caps| ...): find the creating function
+        if r[0] == 'param' and F.bodies[p]['kind'] == 'Closure' and depth < 4:
             parent = p.rsplit('::{closure', 1)[0]
+            site = F.closure_site(p)
+            if r[1] == 1 and site and r[2] and str(r[2][0]).isdigit() and int(r[2][0]) < len(site[2]):
+                # a captured variable: the Captures value of the enclosing function
+                got = _regex_of_captures(F, site[0], site[2][int(r[2][0])], statics, depth + 1)
+                if got:
+                    return got
+                continue
             if parent in F.fn_bodies:
+                # the closure's argument: the payload of the receiver of the combinator the closure is handed to
+                # (re.captures(s).and_then(|caps| ..), re.captures_iter(s).map(|caps| ..))
+                for i, c in F.calls(parent):
+                    if not any(x[0] == 'agg' and x[1][0] == 'closure' and x[1][1] == p for a in c['args'][1:] for x in F.trace(parent, a)):
+                        continue
+                    for x in F.trace(parent, c['args'][0], deep=True):
+                        if x[0] == 'call' and x[1].endswith(('Regex::captures_iter', 'Regex::captures', 'Regex::captures_at')):
+                            for rr in F.trace(parent, x[4]['args'][0]):
+                                if rr[0] == 'call' and rr[1].endswith('as std::ops::Deref>::deref'):
+                                    nm = rr[1].split(' as std::ops::Deref>')[0].lstrip('<')
+                                    if nm in statics:
+                                        return ('static', nm)
+                # closure over captures_iter(...).map(|caps| ...): find the creating function
                 for i, c in F.calls(parent):
                     if callee_of(c).endswith(('Regex::captures_iter', 'Regex::captures', 'Regex::captures_at')):
                         recv = c['args'][0]
